@@ -14,12 +14,21 @@ import (
 func TypePriority(rr dns.RR) uint32 {
 	switch v := rr.(type) {
 	case *dns.NULL:
+		if len(v.Data) < 2 {
+			break
+		}
 		// first two bytes represent the order
 		return 10000 + uint32(binary.LittleEndian.Uint16([]byte(v.Data[0:2])))
 	case *dns.PrivateRR:
+		if len(v.Data.String()) < 2 {
+			break
+		}
 		// first two bytes represent the order
 		return 20000 + uint32(binary.LittleEndian.Uint16([]byte(v.Data.String()[0:2])))
 	case *dns.TXT:
+		if len(v.Txt) == 0 || len(v.Txt[0]) < 2 {
+			break
+		}
 		// First two characters represent the byte order
 		i1 := enc.Base32CharToInt(v.Txt[0][0])
 		i2 := enc.Base32CharToInt(v.Txt[0][1])
@@ -31,14 +40,23 @@ func TypePriority(rr dns.RR) uint32 {
 		// Use Priority for order
 		return 50000 + uint32(v.Priority)
 	case *dns.CNAME:
+		if len(v.Target) < 2 {
+			break
+		}
 		// First two characters represent the order
 		i1 := enc.Base32CharToInt(v.Target[0])
 		i2 := enc.Base32CharToInt(v.Target[1])
 		return 60000 + uint32(i1+i2*32)
 	case *dns.AAAA:
+		if len(v.AAAA) < 2 {
+			break
+		}
 		// First two bytes represent the order
 		return 70000 + uint32(binary.LittleEndian.Uint16(v.AAAA[0:2]))
 	case *dns.A:
+		if len(v.A) < 1 {
+			break
+		}
 		// First byte represent the order
 		return 80000 + uint32(v.A[0])
 	}
@@ -423,34 +441,51 @@ func UnwrapDnsResponse(q *dns.Msg, domain string) []byte {
 		return TypePriority(answers[i]) < TypePriority(answers[j])
 	})
 
+	// Records which are too short to carry their order tag (or the domain) hold no data and are skipped
 	for _, rr := range answers {
 		switch v := rr.(type) {
 		case *dns.NULL:
 			// Remove first two bytes
-			resp = append(resp, []byte(v.Data[2:])...)
+			if len(v.Data) >= 2 {
+				resp = append(resp, []byte(v.Data[2:])...)
+			}
 		case *dns.PrivateRR:
 			// Remove first two bytes
-			resp = append(resp, []byte(v.Data.String()[2:])...)
+			if data := v.Data.String(); len(data) >= 2 {
+				resp = append(resp, []byte(data[2:])...)
+			}
 		case *dns.TXT:
-			resp = append(resp, unescapePresentation(strings.Join(v.Txt, ""), false)[2:]...)
+			if data := unescapePresentation(strings.Join(v.Txt, ""), false); len(data) >= 2 {
+				resp = append(resp, data[2:]...)
+			}
 		case *dns.MX:
-			data := v.Mx                             // Nothing to remove, Preference takes care of it
-			data = data[0 : len(data)-len(domain)-2] // remove domain
-			resp = append(resp, unescapePresentation(data, true)...)
+			data := v.Mx // Nothing to remove, Preference takes care of it
+			if len(data) >= len(domain)+2 {
+				data = data[0 : len(data)-len(domain)-2] // remove domain
+				resp = append(resp, unescapePresentation(data, true)...)
+			}
 		case *dns.SRV:
-			data := v.Target                         // Nothing to remove, Priority takes care of it
-			data = data[0 : len(data)-len(domain)-2] // remove domain
-			resp = append(resp, unescapePresentation(data, true)...)
+			data := v.Target // Nothing to remove, Priority takes care of it
+			if len(data) >= len(domain)+2 {
+				data = data[0 : len(data)-len(domain)-2] // remove domain
+				resp = append(resp, unescapePresentation(data, true)...)
+			}
 		case *dns.CNAME:
-			data := v.Target[2:]                     // Remove first two characters
-			data = data[0 : len(data)-len(domain)-2] // remove domain
-			resp = append(resp, unescapePresentation(data, true)...)
+			if len(v.Target) >= len(domain)+4 {
+				data := v.Target[2:]                     // Remove first two characters
+				data = data[0 : len(data)-len(domain)-2] // remove domain
+				resp = append(resp, unescapePresentation(data, true)...)
+			}
 		case *dns.AAAA:
 			// Remove first two bytes
-			resp = append(resp, v.AAAA[2:]...)
+			if len(v.AAAA) >= 2 {
+				resp = append(resp, v.AAAA[2:]...)
+			}
 		case *dns.A:
 			// Remove first byte
-			resp = append(resp, v.A[1:]...)
+			if len(v.A) >= 1 {
+				resp = append(resp, v.A[1:]...)
+			}
 		}
 	}
 
